@@ -14,7 +14,7 @@ TraceLog == ndJsonDeserialize("trace.ndjson")
 
 VARIABLES l, idle,   \* idle: since when the swarm owes an attempt (-1: it does not)
   ainfo,     \* address name -> [relay, fd]
-  caps,      \* [perpeer, fdlimit]
+  caps,      \* [perpeer, fdlimit, ext]  ext: file-descriptor tokens held right now by transport dials to OTHER peers
   waiting,   \* callers inside DialPeer
   call,      \* caller -> [t, force]   (every caller that has called)
   returned,  \* callers whose DialPeer returned
@@ -34,12 +34,12 @@ Running(a) == IF a \in DOMAIN run THEN run[a] ELSE 0
 RECURSIVE SumRun(_)
 SumRun(S) == IF S = {} THEN 0 ELSE LET a == CHOOSE x \in S : TRUE IN Running(a) + SumRun(S \ {a})
 
-Init0 == /\ ainfo = <<>> /\ caps = [perpeer |-> 0, fdlimit |-> 0] /\ waiting = {} /\ call = <<>>
+Init0 == /\ ainfo = <<>> /\ caps = [perpeer |-> 0, fdlimit |-> 0, ext |-> 0] /\ waiting = {} /\ call = <<>>
          /\ returned = {} /\ cancelAt = <<>> /\ dialedGen = {} /\ run = <<>> /\ failed = {}
          /\ conns = <<>> /\ closedAt = <<>>
 TraceInit == Init0 /\ l = 1 /\ TLCSet(1, 1)
 TrReset == /\ IsEvent("reset")
-           /\ ainfo' = <<>> /\ caps' = [perpeer |-> 0, fdlimit |-> 0] /\ waiting' = {} /\ call' = <<>>
+           /\ ainfo' = <<>> /\ caps' = [perpeer |-> 0, fdlimit |-> 0, ext |-> 0] /\ waiting' = {} /\ call' = <<>>
            /\ returned' = {} /\ cancelAt' = <<>> /\ dialedGen' = {} /\ run' = <<>> /\ failed' = {}
            /\ conns' = <<>> /\ closedAt' = <<>>
 
@@ -49,7 +49,7 @@ TrReset == /\ IsEvent("reset")
 \* from the address set, not taken from the code)
 TrAddr == /\ IsEvent("addr") /\ ainfo' = Put(ainfo, Cur.a, [relay |-> Cur.relay, fd |-> Cur.fd, low |-> Cur.low])
           /\ UNCHANGED <<caps, waiting, call, returned, cancelAt, dialedGen, run, failed, conns, closedAt>>
-TrConfig == /\ IsEvent("config") /\ caps' = [perpeer |-> Cur.perpeer, fdlimit |-> Cur.fdlimit]
+TrConfig == /\ IsEvent("config") /\ caps' = [perpeer |-> Cur.perpeer, fdlimit |-> Cur.fdlimit, ext |-> 0]
             /\ UNCHANGED <<ainfo, waiting, call, returned, cancelAt, dialedGen, run, failed, conns, closedAt>>
 
 \* a caller enters DialPeer (each caller calls once)
@@ -68,10 +68,22 @@ TrTStart ==
   /\ Cur.peer_ok
   /\ (waiting # {} => Cur.a \notin dialedGen)
   /\ SumRun(DOMAIN run) + 1 <= caps.perpeer
-  /\ (ainfo[Cur.a].fd => SumRun({a \in DOMAIN run : ainfo[a].fd}) + 1 <= caps.fdlimit)
+  /\ (ainfo[Cur.a].fd => SumRun({a \in DOMAIN run : ainfo[a].fd}) + caps.ext + 1 <= caps.fdlimit)
   /\ dialedGen' = IF waiting # {} THEN dialedGen \cup {Cur.a} ELSE dialedGen
   /\ run' = Put(run, Cur.a, Running(Cur.a) + 1)
   /\ UNCHANGED <<ainfo, caps, waiting, call, returned, cancelAt, failed, conns, closedAt>>
+
+\* a transport dial to ANOTHER peer (the file-descriptor cap is shared by all peers) starts / ends: it takes
+\* a file-descriptor token like any other, within the cap
+TrExtStart ==
+  /\ IsEvent("ext_start")
+  /\ SumRun({a \in DOMAIN run : ainfo[a].fd}) + caps.ext + 1 <= caps.fdlimit
+  /\ caps' = [caps EXCEPT !.ext = @ + 1]
+  /\ UNCHANGED <<ainfo, waiting, call, returned, cancelAt, dialedGen, run, failed, conns, closedAt>>
+TrExtEnd ==
+  /\ IsEvent("ext_end") /\ caps.ext > 0
+  /\ caps' = [caps EXCEPT !.ext = @ - 1]
+  /\ UNCHANGED <<ainfo, waiting, call, returned, cancelAt, dialedGen, run, failed, conns, closedAt>>
 
 TrTEnd ==
   /\ IsEvent("tdial_end") /\ Running(Cur.a) > 0
@@ -129,7 +141,7 @@ TrResidue ==
   /\ UNCHANGED <<ainfo, caps, waiting, call, returned, cancelAt, dialedGen, run, failed, conns, closedAt>>
 
 TrHook == IsEvent("hook") /\ UNCHANGED <<ainfo, caps, waiting, call, returned, cancelAt, dialedGen, run, failed, conns, closedAt>>
-TraceNext == \/ TrHook \/ TrReset \/ TrAddr \/ TrConfig \/ TrDialCall \/ TrCancel \/ TrTStart \/ TrTEnd \/ TrConnClose
+TraceNext == \/ TrHook \/ TrExtStart \/ TrExtEnd \/ TrReset \/ TrAddr \/ TrConfig \/ TrDialCall \/ TrCancel \/ TrTStart \/ TrTEnd \/ TrConnClose
              \/ TrRetConn \/ TrRetCtx \/ TrRetErr \/ TrResidue
 \* No idle waiting: while a caller is inside DialPeer, nothing is in flight, and an address that caller may
 \* use has neither been attempted since callers started waiting nor failed, the swarm owes an attempt; the
@@ -138,15 +150,17 @@ TraceNext == \/ TrHook \/ TrReset \/ TrAddr \/ TrConfig \/ TrDialCall \/ TrCance
 \* unless a connection is obtained or every caller has given up first" - giving up because the swarm sat
 \* on an address for the whole dial timeout does not count.
 MaxIdle == 5000
-StalledIn(w, r, f, d, cl) ==
+\* (an address that consumes a file descriptor is not owed while dials to other peers hold every token)
+StalledIn(w, r, f, d, cl, cp) ==
   /\ w # {}
   /\ \A a \in DOMAIN r : r[a] = 0
   /\ \E c \in w : \E a \in DOMAIN ainfo :
-        ~(cl[c].force /\ ainfo[a].relay) /\ ~ainfo[a].low /\ a \notin f /\ a \notin d
+        /\ ~(cl[c].force /\ ainfo[a].relay) /\ ~ainfo[a].low /\ a \notin f /\ a \notin d
+        /\ ~(ainfo[a].fd /\ cp.ext >= cp.fdlimit)
 IdleStep ==
   LET hasT == "t" \in DOMAIN Cur IN
   /\ ((hasT /\ idle # -1) => Cur.t - idle <= MaxIdle)
-  /\ idle' = IF StalledIn(waiting', run', failed', dialedGen', call')
+  /\ idle' = IF StalledIn(waiting', run', failed', dialedGen', call', caps')
              THEN (IF idle = -1 /\ hasT THEN Cur.t ELSE idle) ELSE -1
 TraceSpec == TraceInit /\ idle = -1 /\ [][TraceNext /\ IdleStep]_<<vars, idle>>
 
